@@ -319,3 +319,159 @@ Proof.
     + intros g Hg. rewrite Hg in SG. apply negb_false_iff, Z.eqb_eq in SG. subst. auto.
   - unfold do_wait_ack. destruct (map _ _); reflexivity.
 Qed.
+
+(* ------------------------------------------------------------------------------------------ *)
+(* answer                                                                                       *)
+
+Definition mine (r : Z) (dgs : list dgram) : list sub :=
+  flat_map (fun d => if fst d =? r then snd d else []) dgs.
+
+Lemma mine_app r a b : mine r (a ++ b) = mine r a ++ mine r b.
+Proof. unfold mine. apply flat_map_app. Qed.
+
+Lemma mine_In r dgs m x : In (r, m) dgs -> In x m -> In x (mine r dgs).
+Proof.
+  intros H Hx. unfold mine. apply in_flat_map. exists (r, m). split; auto.
+  cbn. rewrite Z.eqb_refl. auto.
+Qed.
+
+Lemma gap_single_covers rd u :
+  exists st b set, gap_fields [u] = Some (st, b, set) /\ gap_covers (SGap rd st b set) u = true.
+Proof.
+  assert (E1 : run_end (u + 1) [u] = u + 1).
+  { cbn [run_end]. destruct (Z.eqb_spec u (u + 1)); [lia|]. destruct (u <? u + 1); reflexivity. }
+  assert (E2 : sfrom (u + 1) [u] = []).
+  { unfold sfrom. cbn [filter]. destruct (Z.leb_spec (u + 1) u); [lia | reflexivity]. }
+  unfold gap_fields. cbn [lmin fold_right]. rewrite E1, E2. cbn [last_of].
+  do 3 eexists. split; [reflexivity|]. cbn [gap_covers].
+  destruct (Z.leb_spec u u); destruct (Z.ltb_spec u (u + 1)); try lia; try reflexivity.
+Qed.
+
+Lemma gap_fields_cover rd l u :
+  In u l -> (forall m, first_of l = Some m -> u <= m + 255) ->
+  exists st b set, gap_fields l = Some (st, b, set) /\ gap_covers (SGap rd st b set) u = true.
+Proof.
+  intros Hu W. destruct l as [|x t]; [destruct Hu|].
+  unfold gap_fields. set (start := lmin x t). set (base := run_end (start + 1) (x :: t)).
+  assert (Hs : start <= u) by (apply (first_of_le (x :: t)); auto).
+  assert (Hb : start + 1 <= base) by apply run_end_ge.
+  specialize (W start eq_refl). clearbody base. clearbody start.
+  destruct (Z.lt_ge_cases u base) as [C|C].
+  - destruct (last_of (sfrom base (x :: t))); do 3 eexists; (split; [reflexivity|]); cbn;
+      destruct (Z.leb_spec start u); destruct (Z.ltb_spec u base); try lia; reflexivity.
+  - assert (Hin : In u (sfrom base (x :: t))).
+    { unfold sfrom. apply filter_In. split; auto. apply Z.leb_le. lia. }
+    destruct (last_of (sfrom base (x :: t))) as [e0|] eqn:E.
+    + pose proof (last_of_ge _ _ _ E Hin) as He.
+      do 3 eexists. split; [reflexivity|]. cbn. apply orb_true_iff. right.
+      apply smem_In. apply filter_In. split; auto.
+      apply andb_true_iff. split; [apply Z.leb_le; lia|]. apply Z.leb_le.
+      destruct (Z.leb_spec 256 (e0 - base)); lia.
+    + apply last_of_none in E. rewrite E in Hin. destruct Hin.
+Qed.
+
+Lemma existsb_app_r {A} (f : A -> bool) a b : existsb f b = true -> existsb f (a ++ b) = true.
+Proof. intros H. rewrite existsb_app, H. apply orb_true_r. Qed.
+Lemma existsb_app_l {A} (f : A -> bool) a b : existsb f a = true -> existsb f (a ++ b) = true.
+Proof. intros H. rewrite existsb_app, H. reflexivity. Qed.
+
+Lemma gap_subs_covered rd l u :
+  (exists st b set, gap_fields l = Some (st, b, set) /\ gap_covers (SGap rd st b set) u = true) ->
+  existsb (fun s => gap_covers s u) (gap_subs l rd) = true.
+Proof.
+  intros (st & b & set & E & C). unfold gap_subs. rewrite E. cbn [existsb]. rewrite C. reflexivity.
+Qed.
+
+Lemma sparse_gap_false u l :
+  sparse_gap u l = false -> In u l -> forall m, first_of l = Some m -> u <= m + 255.
+Proof.
+  unfold sparse_gap. intros S Hu m E. rewrite E in S.
+  apply smem_In in Hu. rewrite Hu in S. cbn in S. apply Z.ltb_ge in S. lia.
+Qed.
+
+Lemma answered_unfold cf w r u dgs :
+  answered cf w r u dgs =
+  (existsb (fun s => gap_covers s u) (mine r dgs)
+  || match get_by_sn u w with
+     | None => false
+     | Some cc =>
+         existsb (fun s => match s with
+                           | SData _ sn by_ => (sn =? u) && zl_eqb by_ (ch_bytes cc)
+                           | _ => false end) (mine r dgs)
+         || ((c_dmax cf <? len (ch_bytes cc))
+             && forallb (fun k => existsb (frag_ok cf cc k) (mine r dgs))
+                        (zrange 1 (Z.to_nat (num_frags (c_dmax cf) (len (ch_bytes cc))))))
+     end).
+Proof. reflexivity. Qed.
+
+Lemma answer_step cf w s r p u :
+  inv w s -> rget r (s_readers s) = Some p -> first_of (p_unsent p) = Some u -> 1 <= u ->
+  sparse_gap u (p_gap p) = false ->
+  answered cf w r u (o_dgrams (snd (do_repair_tick cf s r))) = true.
+Proof.
+  intros I R U U1 SP. pose proof (rget_id _ _ _ R) as Pid.
+  unfold do_repair_tick, do_repair_tick_with. rewrite R, U.
+  destruct (repair_decide true cf s r p u _) as [[dg1 p1] nlr] eqn:D.
+  cbn [snd o_dgrams dg_out]. rewrite answered_unfold, mine_app.
+  unfold repair_decide in D.
+  destruct (Z.ltb_spec u (s_first s)) as [LT|GE].
+  - (* older than anything in store: GAP before first_seq *)
+    rewrite orb_true_r in D. injection D as <- <- <-.
+    rewrite orb_true_r. cbn [is_some]. apply orb_true_iff. left. apply existsb_app_r.
+    unfold mine. cbn [flat_map fst snd]. rewrite Z.eqb_refl, app_nil_r.
+    cbn [app existsb]. apply orb_true_iff. right. apply orb_true_iff. left.
+    cbn. destruct (Z.leb_spec 1 u); destruct (Z.ltb_spec u (s_first s)); try lia; try reflexivity.
+  - cbn [is_some] in D. rewrite orb_false_r in D.
+    destruct (smem u (p_gap p)) eqn:M.
+    + (* pending gap *)
+      injection D as <- <- <-. cbn [is_some]. rewrite orb_false_r.
+      apply smem_In in M.
+      assert (NE : nonempty (p_gap p) = true) by (destruct (p_gap p); [destruct M | reflexivity]).
+      rewrite NE. apply orb_true_iff. left. apply existsb_app_r.
+      unfold mine. cbn [flat_map fst snd]. rewrite Z.eqb_refl, app_nil_r.
+      cbn [app existsb]. apply orb_true_iff. right.
+      apply gap_subs_covered. apply gap_fields_cover; auto.
+      apply sparse_gap_false; auto.
+    + destruct (get_by_sn u (s_hist s)) as [cc|] eqn:G.
+      * destruct (inv_get_hist _ _ _ _ I G) as [_ G']. pose proof (get_by_sn_sn _ _ _ G') as Hsn.
+        destruct (true && _) eqn:OS.
+        -- (* written for another single reader: GAP *)
+           injection D as <- <- <-. cbn [is_some nonempty orb].
+           apply orb_true_iff. left. apply existsb_app_r.
+           unfold mine. cbn [flat_map fst snd]. rewrite Z.eqb_refl, app_nil_r.
+           cbn [app existsb]. apply orb_true_iff. right.
+           apply gap_subs_covered. apply gap_single_covers.
+        -- (* DATA / DATAFRAG *)
+           cbn [andb] in OS.
+           destruct (send_cache_change cf s cc false (Some p)) as [[dg fr] s'] eqn:S.
+           injection D as <- <- <-.
+           rewrite G'. apply orb_true_iff. right.
+           unfold send_cache_change in S.
+           assert (RF : match ch_single cc with Some g => negb (g =? p_id p) | None => false end = false)
+             by (rewrite Pid; exact OS).
+           rewrite RF in S. cbn [option_map] in S. rewrite Pid in S.
+           destruct (negb (c_dmax cf <? len (ch_bytes cc))) eqn:NF; injection S as <- _ _.
+           ++ apply orb_true_iff. left. apply existsb_app_l.
+              unfold mine. cbn [flat_map map fst snd app]. rewrite Z.eqb_refl, !app_nil_r.
+              apply existsb_exists. exists (SData (Some r) (ch_sn cc) (ch_bytes cc)). split.
+              ** right. apply in_or_app. right. cbn; auto.
+              ** cbv beta iota. rewrite Hsn, Z.eqb_refl, zl_eqb_refl. reflexivity.
+           ++ apply orb_true_iff. right. apply negb_false_iff in NF. rewrite NF. cbn [andb].
+              apply forallb_forall. intros k Hk. apply existsb_app_l.
+              apply existsb_exists.
+              exists (SFrag (Some r) (ch_sn cc) k (len (ch_bytes cc)) (c_dmax cf)
+                            (slice (c_dmax cf) k (ch_bytes cc))). split.
+              ** eapply mine_In with (m := [SInfoDst r] ++ [SFrag (Some r) (ch_sn cc) k (len (ch_bytes cc)) (c_dmax cf) (slice (c_dmax cf) k (ch_bytes cc))]).
+                 --- apply in_flat_map. eexists. split.
+                     +++ apply in_or_app. right. apply in_or_app. left.
+                         apply in_map_iff. exists k. split; [reflexivity | exact Hk].
+                     +++ cbn. left. reflexivity.
+                 --- apply in_or_app. right. cbn; auto.
+              ** cbn. rewrite !Z.eqb_refl, zl_eqb_refl. reflexivity.
+      * (* not in store although first_seq <= u: GAP for u alone *)
+        injection D as <- <- <-. cbn [is_some nonempty orb].
+        apply orb_true_iff. left. apply existsb_app_r.
+        unfold mine. cbn [flat_map fst snd]. rewrite Z.eqb_refl, app_nil_r.
+        cbn [app existsb]. apply orb_true_iff. right.
+        apply gap_subs_covered. apply gap_single_covers.
+Qed.
